@@ -8,6 +8,7 @@ EXPLANATION = (
     "canonical warp order and shard routing is a pure function of the node id; (R3) per-shard executors re-sort by "
     "shard id before returning and worker results are consumed only by the canonical merge; (R4) a poisoned delta is "
     "never read/merged. Bit-identity across all schedules is the conclusion of the canonical-merge argument and is NOT decided."
+    " Round 2 (R5): no op is dropped or de-duplicated between the workers' deltas and the canonical sort; no store reference in the work-queue worker is produced before the unit was claimed."
 )
 ASSUMPTIONS = ["Rust aliasing rules (shared refs to Freeze data are read-only)", "canonical merge premises are checked in C01.R4"]
 FLOOR = 25
